@@ -39,7 +39,8 @@ def main():
         inv[mname][q]['loops'] = inline.loop_targets(f)
   json.dump(inv, open(out, 'w'), indent=0, sort_keys=True)
   inline._INV = None
-  print('functions: %d' % sum(len(v) for k, v in inv.items()
+  print('functions: %d' % sum(len([q for q in v if not q.startswith('__')])
+                              for k, v in inv.items()
                               if not k.startswith('__')))
 
 
